@@ -115,6 +115,50 @@ def check(case):
             out.applies('degenerate-transmittance')
             if not close(tau_k, tau_x, rtol=1e-9, atol=1e-12):
                 out.fail('degenerate-transmittance', 'layer transmittances differ (max abs %.2e)' % float(np.max(np.abs(tau_k - tau_x))))
+    if family != 'transmission':
+        # reference integral generalised to a k-distribution: the transmittance of the column above
+        # a level is  e^{-tau_other/mu} * sum_g w_g e^{-tau_g/mu}
+        from vlib.props.c01 import absorption_sigma_ref, RSUN
+        out.applies('k-emission-integral')
+        P = np.asarray(mk.pressureProfile, dtype=float)
+        dz = np.asarray(mk.deltaz, dtype=float)
+        col = P / (ref.K_BOLTZ * T) * dz
+        nl, nw = len(T), len(Wk.wn)
+        mol = absorption_sigma_ref(Wk, mk) * col[:, None]            # per layer, factor 1
+        other = np.zeros((nl, nw))
+        for c in mk.contribution_list:
+            if c.name == 'CIA':
+                other += np.asarray(c.sigma_xsec, dtype=float) * (col * P / (ref.K_BOLTZ * T))[:, None]
+            elif c.name != 'Absorption':
+                other += np.asarray(c.sigma_xsec, dtype=float) * col[:, None]
+        mus, ws = ref.gauss_legendre_01(case['ngauss'])
+
+        def above(a):
+            r = np.zeros((nl + 1, nw))
+            for l in range(nl - 1, -1, -1):
+                r[l] = r[l + 1] + a[l]
+            return r
+        am, ao = above(mol), above(other)
+        flux = np.zeros(nw)
+        with np.errstate(all='ignore'):
+            for mu, wq in zip(mus, ws):
+                def Ts(l):
+                    t = np.zeros(nw)
+                    for g in range(len(wts)):
+                        t = t + wts[g] * np.exp(-am[l] * fac[g] / mu)
+                    return t * np.exp(-ao[l] / mu)
+                I = ref.planck_wn(Wk.wn, T[0]) / math.pi * Ts(0)
+                for l in range(nl):
+                    I = I + ref.planck_wn(Wk.wn, T[l]) / math.pi * (Ts(l + 1) - Ts(l))
+                flux = flux + 2.0 * math.pi * I * mu * wq
+        Rp = w['radius'] * synth.RJUP
+        if family == 'emission':
+            want = flux / ref.planck_wn(Wk.wn, w['star_T']) * (Rp / (w['star_R'] * RSUN)) ** 2
+        else:
+            want = flux * Rp ** 2 / (2.0 * (float(mk.star.distance) * 3.08567758e16) ** 2)
+        if not close(spec_k, want, rtol=1e-8, atol=1e-300):
+            out.fail('k-emission-integral@%s,%s' % (family, 'degenerate' if case['degenerate'] else 'general'),
+                     'k-mode %s reference %s (max rel %.2e)' % (spec_k[:3], want[:3], maxrel(spec_k, want)))
     if family == 'transmission':
         out.applies('transmittance-in-unit-interval')
         if np.any(tau_k < 0.0) or np.any(tau_k > 1.0 + 1e-12):
